@@ -263,8 +263,13 @@ def run(repo, chk):
     loops = [st for st in ng.stmts(lambda s: isinstance(s, ast.For))]
     good = good and any(norm(st.iter) == "supported" for st in loops)
     chk.ob("R4", "negotiate returns only elements of supported that are in offered", good, "a return value is not guarded by membership in both lists", ng.loc(ng.node))
-    rz = [r for r in ng.raises() if Fn.find_guards(ng.lexical_guards(r, expand=False), "is not", True, ["exc", "None"])]
-    chk.ob("R4", "negotiate raises the supplied alert when nothing matches", bool(rz), "raise exc vanished", ng.loc(ng.node))
+    # "nothing matched" ends in `raise exc` unless no alert was supplied: the function has a `raise exc`, and every
+    # `return None` is reached only with `exc is None` (either order of the final test)
+    rz = [r for r in ng.raises() if r.exc is not None and norm(r.exc) == "exc"]
+    nones = [r for r in rets if r.value is None or (isinstance(r.value, ast.Constant) and r.value.value is None)]
+    ok = bool(rz) and all(natom("exc is None") in ng.guard_atoms(r) for r in nones) and not any(ng.enclosing_handlers(r) for r in rz)
+    falls_off = ng.cfg.reaches(ng.cfg.entry, ng.cfg.exit, avoid={ng.cfg.begin[r] for r in rets})
+    chk.ob("R4", "negotiate raises the supplied alert when nothing matches", ok and not falls_off, "raise exc vanished, or None is returned although an alert was supplied", ng.loc(ng.node))
     sh = Fn(repo, T.CTX + "_server_handle_hello")
     mand = {"peer_hello.cipher_suites": "cipher suite", "peer_hello.legacy_compression_methods": "compression", "peer_hello.signature_algorithms": "signature algorithm", "peer_hello.supported_versions": "TLS version", "peer_hello.alpn_protocols": "ALPN"}
     found = set()
